@@ -207,3 +207,18 @@ Print Assumptions c15_ssthresh_after_loss_upper.
 Print Assumptions c15_set_mss_chain_bytes.
 Print Assumptions c15_model_trace_fine_ok.
 Print Assumptions c15_model_trace_ok_b.
+
+(* The slow-start clause of C05 at the congestion controller, cumulative and EXACT: from Cubic::new,
+   after any sequence of at most 2^18 set_remote_window / on_ack / set_mss operations (no RTO, no
+   recovery) with 2 * mss_max + acked_bytes < 2^32:  window() <= 2 * mss_max + acked_bytes, where
+   (mss_max, acked_bytes) = ss_acc mss0 0 ops.  All float error is absorbed by the final truncation. *)
+Theorem c15_slow_start_cumulative : forall (cbrt powf3 : f64 -> f64) (now0 mss0 : Z)
+    (ops : list cubic_op) (s : cubic),
+  (1 <= mss0 < 65536)%Z -> forallb ss_only ops = true -> forallb c15_op_dom ops = true ->
+  (Z.of_nat (length ops) <= 262144)%Z ->
+  (2 * fst (ss_acc mss0 0 ops) + snd (ss_acc mss0 0 ops) <= 4294967295)%Z ->
+  cubic_run cbrt powf3 (cubic_new now0 mss0) ops = Some s ->
+  (cubic_window s <= 2 * fst (ss_acc mss0 0 ops) + snd (ss_acc mss0 0 ops))%Z.
+Proof. exact slow_start_cumulative. Qed.
+
+Print Assumptions c15_slow_start_cumulative.
